@@ -71,15 +71,19 @@ def run_tlc(module, cfg=None, specdir=None, workers=1, env=None, timeout=1800,
     if env:
         e.update({k: str(v) for k, v in env.items()})
     t0 = time.time()
-    try:
-        p = subprocess.run(cmd, cwd=specdir, env=e, stdout=subprocess.PIPE, stderr=subprocess.STDOUT,
-                           timeout=timeout, text=True, errors="replace")
-    except subprocess.TimeoutExpired as ex:
+    for attempt in range(3):
+        try:
+            p = subprocess.run(cmd, cwd=specdir, env=e, stdout=subprocess.PIPE, stderr=subprocess.STDOUT,
+                               timeout=timeout, text=True, errors="replace")
+        except subprocess.TimeoutExpired as ex:
+            shutil.rmtree(meta, ignore_errors=True)
+            raise TLCError("TLC timeout after %ss on %s" % (timeout, module))
         shutil.rmtree(meta, ignore_errors=True)
-        raise TLCError("TLC timeout after %ss on %s" % (timeout, module))
-    finally:
-        pass
-    shutil.rmtree(meta, ignore_errors=True)
+        if p.returncode in (143, 137, -15, -9) and attempt < 2:
+            time.sleep(1.0)      # killed from outside (e.g. another job's pkill): run it again
+            os.makedirs(meta, exist_ok=True)
+            continue
+        break
     out = p.stdout
     r = TLCResult(out=out, wall_s=time.time() - t0, rc=p.returncode, cmd=" ".join(cmd[-8:]))
     m = re.findall(r"(\d+) states generated, (\d+) distinct states found", out)
@@ -111,7 +115,7 @@ def run_tlc(module, cfg=None, specdir=None, workers=1, env=None, timeout=1800,
     other_err = re.findall(r"^Error: (?!Invariant|Action property|Temporal|Assumption|The postcondition|Deadlock|The behavior|The following behavior)(.*)$", out, re.M)
     hard = [x for x in other_err if x.strip()]
     if p.returncode not in (0, 10, 11, 12, 13) and r["violated"] is None:
-        raise TLCError("TLC failed rc=%s on %s:\n%s" % (p.returncode, module, out[-3000:]))
+        raise TLCError("TLC failed rc=%s on %s:\n%s" % (p.returncode, module, _short(out)))
     if r["violated"] is None and hard and not finished:
         raise TLCError("TLC error on %s: %s\n%s" % (module, hard[0], out[-3000:]))
     r["ok"] = r["violated"] is None and p.returncode == 0
@@ -121,6 +125,12 @@ def run_tlc(module, cfg=None, specdir=None, workers=1, env=None, timeout=1800,
     if coverage:
         r["coverage"] = parse_coverage(out)
     return r
+
+
+def _short(out, n=3000):
+    """tail of the output without the (long) emitted @@ lines"""
+    lines = [x[:300] for x in out.splitlines() if not x.startswith('<<"@@"')]
+    return "\n".join(lines)[-n:]
 
 
 def parse_printed(out):
